@@ -9,6 +9,7 @@ import (
 	"bytes"
 	"encoding/json"
 	"fmt"
+	"github.com/dcaiafa/lox/verif/internal/root"
 	"go/ast"
 	"go/format"
 	"go/token"
@@ -58,8 +59,8 @@ func main() {
 		die("load: %v", err)
 	}
 	overlay := map[string]string{
-		"/repo/internal/codegen/zz_verif_hook.go":  "/verif/hooks/codegen_hook.go",
-		"/repo/internal/base/verifmap/verifmap.go": "/verif/hooks/verifmap.go",
+		"/repo/internal/codegen/zz_verif_hook.go":  root.Path("hooks", "codegen_hook.go"),
+		"/repo/internal/base/verifmap/verifmap.go": root.Path("hooks", "verifmap.go"),
 	}
 	var sites []string
 	var skipped []string
